@@ -445,6 +445,29 @@ def dupcmd_family(seed, n, maxlen=2, budget=2500):
     return out
 
 
+def count_family(seed, n, maxlen=3, budget=3000):
+    """`count()` over valued arguments (not only over flags): the value is the number of occurrences, every value is
+    still converted and validated"""
+    rnd = random.Random(seed)
+    out = []
+    for i in range(n):
+        vt = ["int", "str"][i % 2]
+        c = ar("c0", "count", vt, "-D", "--def", guard=(vt == "str" or i % 4 == 0))
+        other = [sw("o1", "-v"), ar("o1", "opt", "int", "-o"), rf("o1", "count", "-v")][i % 3]
+        named = [c, other] if i % 2 else [other, c]
+        shape = (i // 2) % 3
+        if shape == 0:
+            lvl = level(named, NOTAIL)
+        elif shape == 1:
+            lvl = level(named, postail(pos("p0", "opt")))
+        else:
+            lvl = level([sw("t", "-t")], cmdtail([cmd("one", level(named, NOTAIL))], optional=True))
+        d = mkdef(f"cnt{seed}_{i}", lvl, maxlen=maxlen, extras=("unk",), spells=("sep", "eq"), words=("1", "2", "x"))
+        trim_to_budget(d, budget)
+        out.append(d)
+    return out
+
+
 def catch_family(seed, n, maxlen=2, budget=1500):
     """optional/many/some arguments with `catch` (C06: the one documented exception): typed and environment values"""
     rnd = random.Random(seed)
@@ -971,7 +994,8 @@ def amb_family(seed, n, maxlen=2, budget=10**9):
     rnd = random.Random(seed)
     out = []
     while len(out) < n:
-        inner = level([ar("c0", rnd.choice(["opt", "one"]), "str", "-a"), sw("c1", "-c")], NOTAIL)
+        inner = level([ar("c0", rnd.choice(["opt", "one"]), "str", "-a"), sw("c1", "-c")],
+                      postail(pos("cp", "opt")) if len(out) % 2 == 0 else NOTAIL)
         top = level([sw("t0", "-a"), sw("t1", "-b")] + ([ar("t2", "opt", "str", "-o")] if len(out) % 2 else []),
                     cmdtail([cmd("one", inner)], optional=bool(len(out) % 3)), version=bool(len(out) % 2))
         d = mkdef(f"amb{seed}_{len(out)}", top, maxlen=maxlen, extras=("help", "unk") if len(out) % 2 else ("help", "dd"),
